@@ -106,6 +106,20 @@ impl<'a> Unarchiver<'a> {
             file_count += 1;
             let (mut entry, path) = entry.map_err(ArchiveExtractError::Read)?;
 
+            // tar confines an entry to `dest_dir` rather than to `dest_dir/target`, and follows
+            // symbolic links that already exist in the destination (possible when overwriting).
+            // Refuse to unpack through or onto such a link.
+            let mut dest_path = dest_dir.clone();
+            for component in path.components() {
+                dest_path.push(component);
+                if dest_path.symlink_metadata().is_ok_and(|m| m.is_symlink()) {
+                    return Err(ArchiveExtractError::WriteFile {
+                        path,
+                        error: io::Error::other(format!("`{dest_path}` is a symbolic link")),
+                    });
+                }
+            }
+
             entry
                 .unpack_in(&dest_dir)
                 .map_err(|error| ArchiveExtractError::WriteFile {
